@@ -15,4 +15,5 @@ var Registry = map[string]Prop{
 	"C10": {C10, c10Replay},
 	"C11": {C11, c11Replay},
 	"C14": {C14, c14Replay},
+	"C19": {C19, c19Replay},
 }
